@@ -218,7 +218,7 @@ def _sr():
 
 
 @st.composite
-def gcase(draw, nmax, classes=None):
+def gcase(draw, nmax, classes=None, perm_ok=False):
     s = draw(gens.series(nmin=5, nmax=nmax, classes=classes or GCLASSES))
     n = len(s["y"])
     g = draw(gens.gap_mask(n, min_valid=5))
@@ -226,6 +226,10 @@ def gcase(draw, nmax, classes=None):
     case = {"y": s["y"], "valid": g["valid"], "nodata": nd, "ycls": s["cls"], "gcls": g["gcls"], "sr": draw(_sr())}
     if draw(st.booleans()):
         case["p"] = draw(gens.pvals)
+    elif perm_ok and draw(st.integers(0, 2)) == 0:
+        # "lambda drawn from 10**srange": the candidates need not be sorted (the symmetric criterion does not depend on their order)
+        cnt = case["sr"]["count"]
+        case["sr"] = dict(case["sr"], perm=list(range(cnt - 1, -1, -1)) if draw(st.booleans()) else list(draw(st.permutations(list(range(cnt))))))
     return case
 
 
@@ -332,9 +336,9 @@ def run(ctx):
             rec.discard("gcv", why)
         rec.case("gcv", case, nontrivial=(not _trivial(case)) and why is None,
                  cls=["wcvp" if "p" in case else "wcv", "gap:" + case["gcls"], "y:" + case["ycls"],
-                      "default_srange" if case["sr"] == DEFAULT_SR else "gen_srange"])
+                      "default_srange" if case["sr"] == DEFAULT_SR else "gen_srange", "srange_order:" + ("permuted" if case["sr"].get("perm") else "ascending")])
 
-    ctx.given("gcv", gcase(ctx.n(120, 200)), ctx.n(900, 12000), fn=f_gcv)
+    ctx.given("gcv", gcase(ctx.n(120, 200), perm_ok=True), ctx.n(900, 12000), fn=f_gcv)
 
     def f_rob(case):
         why = sub_robust_ref(case, rec)
